@@ -72,6 +72,10 @@ func (p Parser) Parse(src io.Reader) (f File) {
 
 		if decodeErr != nil {
 			f.Error = tryDecodingYamlError(decodeErr)
+			if cr.lineno > 0 && f.Error.Line > cr.lineno {
+				// yaml reports errors found at the end of the input on the line after the last one
+				f.Error.Line = cr.lineno
+			}
 			return f
 		}
 		index++
@@ -192,7 +196,8 @@ func (p *Parser) parseNode(node, parent *yaml.Node, group *Group, offsetLine, of
 			//     rules: ...
 			// Then we need to get the offset of `groups` inside the FILE, not inside the YAML node value.
 			// Right now we read the line where it's in the file and count leading spaces.
-			if err := yaml.Unmarshal([]byte(node.Value), &n); err == nil && aliasCycle(&n, map[*yaml.Node]bool{}) == nil {
+			if err := yaml.Unmarshal([]byte(node.Value), &n); err == nil && aliasCycle(&n, map[*yaml.Node]bool{}) == nil &&
+				aliasExpansion(&n, map[*yaml.Node]int{}) <= maxAliasExpansion {
 				groups = append(groups,
 					p.parseNode(
 						&n,
